@@ -369,6 +369,8 @@ func (p *Parser) parseAmount() *ast.Amount {
 	}
 	amount.Quantity = qty
 	amount.RawQuantity = rawNumberStr
+	// the amount ends where its last token ends: the number, or the commodity behind it
+	end := p.current.End
 	p.advance()
 
 	if amount.Commodity.Symbol == "" {
@@ -383,11 +385,12 @@ func (p *Parser) parseAmount() *ast.Amount {
 					End:   toASTPosition(p.current.End),
 				},
 			}
+			end = p.current.End
 			p.advance()
 		}
 	}
 
-	amount.Range.End = toASTPosition(p.current.Pos)
+	amount.Range.End = toASTPosition(end)
 	return amount
 }
 
@@ -492,18 +495,13 @@ func (p *Parser) parseAccountDirective(startPos Position) ast.Directive {
 }
 
 // directiveCommodity is the commodity named by the current token of a commodity or price
-// directive. A commodity token ends where its lexeme ends (a quoted symbol with its closing
-// quote), so its End is recorded as parseAmount does. A text token runs on over the blanks
-// that follow it: its End is left unset and the end is derived from the symbol.
+// directive. The token ends where its lexeme ends (a quoted symbol with its closing quote),
+// so its range is recorded as parseAmount does.
 func (p *Parser) directiveCommodity() ast.Commodity {
-	commodity := ast.Commodity{
+	return ast.Commodity{
 		Symbol: p.current.Value,
-		Range:  ast.Range{Start: toASTPosition(p.current.Pos)},
+		Range:  ast.Range{Start: toASTPosition(p.current.Pos), End: toASTPosition(p.current.End)},
 	}
-	if p.current.Type == TokenCommodity {
-		commodity.Range.End = toASTPosition(p.current.End)
-	}
-	return commodity
 }
 
 func (p *Parser) parseCommodityDirective(startPos Position) ast.Directive {
